@@ -627,6 +627,8 @@ class PSFPhotometry(ModelImageMixin):
             finite_mask |= mask
             if np.any(finite_mask & ~mask):
                 warn_nonfinite()
+            # the union of the input mask and the non-finite pixels
+            mask = finite_mask
         else:
             mask = finite_mask
             if np.any(finite_mask):
